@@ -164,6 +164,10 @@ func jquote(b *bytes.Buffer, s string) {
 }
 
 func (v *jv) render(b *bytes.Buffer) {
+	if v == nil {
+		b.WriteString("null")
+		return
+	}
 	switch v.k {
 	case 'o':
 		b.WriteByte('{')
